@@ -1440,7 +1440,19 @@ impl Model {
                     MNode::Aot(_) => return Err(format!("dotted key extends an array of tables at `{}`", seg.name)),
                     MNode::Table(x) => match x.kind {
                         TKind::Dotted(s) if s == section => x,
-                        TKind::Dotted(_) => return Err(format!("dotted key reopens a table of another section at `{}`", seg.name)),
+                        TKind::Dotted(_) => {
+                            // a table made by dotted keys of an earlier section can only be reached
+                            // again by a dotted key after a U1-b step (its parent existed implicitly,
+                            // was written into, and then got its own header): the same open question.
+                            // "As long as a key hasn't been directly defined, you may still write to
+                            // it and to names within it" permits it; only the reading under which
+                            // nothing became defined can get here without an earlier refusal.
+                            hit = true;
+                            match reading {
+                                Reading::PermissiveNonDefining => x,
+                                _ => return Err(format!("dotted key reopens a table of another section at `{}`", seg.name)),
+                            }
+                        }
                         TKind::Implicit => {
                             hit = true;
                             match reading {
